@@ -22,7 +22,8 @@ RULE = ('case = one bound of one class/option combination (UnitCube, Ellipsoid, 
         'periodic or not, split_threshold 1|100}, d = 2..8) brought into a reachable state by a seeded history '
         'over {split (every third union is first split up to 16 times, so that more than ten members exist), split(no overlap), trim, sample(k)}, written to an HDF5 group and read back with a cloned '
         'generator; original and copy are then driven in lock-step (contains on probe points, log_v, sample '
-        'streams long enough to force several refills). For Union/NautilusBound the group is then update()d '
+        'streams long enough to force several refills; two NautilusBound combinations are sampled through NautilusPool(2)). '
+        'For Union/NautilusBound the group is then update()d '
         'after more sampling, compared with a fresh write() and read back again. Non-trivial = the write '
         'happened with a non-empty proposal cache (classes with a cache) or the probes hit both inside and '
         'outside (classes without); distinct by (class, options, shape, dimension, history).')
@@ -37,6 +38,10 @@ COMBOS += [('NeuralBound', {'n_networks': n}) for n in (0, 1, 2)]
 COMBOS += [('NautilusBound', {'n_networks': n, 'split_threshold': t, 'force_periodic': fp, 'n_points_min': 15})
            for n, t, fp in ((0, 100, False), (0, 1, True), (1, 1, False), (1, 100, True), (2, 1, True),
                             (0, 1, False))]
+# sampled through a NautilusPool: the workers' proposal/rejection counters are merged into the parent and must reach
+# the checkpoint through update() as well
+COMBOS += [('NautilusBound', {'n_networks': n, 'split_threshold': t, 'force_periodic': fp, 'n_points_min': 15, 'pool': 2})
+           for n, t, fp in ((0, 1, False), (1, 100, True))]
 
 
 def gen_cases(tier, seed):
@@ -82,7 +87,7 @@ def run_case(spec):
     d = int(rng.integers(2, 9))
     if kind in ('NeuralBound', 'NautilusBound'):
         d = min(d, 6)
-    obs = dict(members_max=0, bounds_with_more_than_10_members=0, lockstep_calls=0, contains_probes=0, sample_points_compared=0, roundtrips=0, update_roundtrips=0,
+    obs = dict(pool_bounds=0, members_max=0, bounds_with_more_than_10_members=0, lockstep_calls=0, contains_probes=0, sample_points_compared=0, roundtrips=0, update_roundtrips=0,
                cache_nonempty_at_write=0, refills_forced=0, history_ops=0)
     viols = []
     history = []
@@ -94,6 +99,14 @@ def run_case(spec):
 
     fd, path = tempfile.mkstemp(suffix='.h5', prefix='nmon-c09-')
     os.close(fd)
+    pool = None
+    if opts.get('pool'):
+        from nautilus.pool import NautilusPool
+        pool = NautilusPool(opts['pool'])
+        obs['pool_bounds'] = 1
+
+    def draw(o, n):
+        return o.sample(n, pool=pool) if pool is not None else o.sample(n)
     try:
         try:
             prob = boundgen.problem(rng, shape, d)
@@ -140,7 +153,7 @@ def run_case(spec):
         except (np.linalg.LinAlgError, ValueError) as e:
             return {'status': 'skipped', 'reason': 'build/history: %r' % e, 'obs': obs}
 
-        own = b.sample(300) if can_sample else np.zeros((0, d))
+        own = draw(b, 300) if can_sample else np.zeros((0, d))
         centre = np.mean(cons, axis=0) if cons is not None else np.full(d, 0.5)
         base = cons[:400] if cons is not None else rng.random((400, d))
         probes = np.vstack([rng.random((2000, d)), own, base,
@@ -188,7 +201,7 @@ def run_case(spec):
             if can_sample:
                 for n in (1, int(rng.integers(2, 900)), 1500, int(rng.integers(1000, 4000))):
                     before = getattr(orig, 'n_sample', 0)
-                    x, y, ok = both('sample', lambda o: o.sample(n))
+                    x, y, ok = both('sample', lambda o: draw(o, n))
                     if not ok:
                         return False
                     obs['sample_points_compared'] += n
@@ -258,6 +271,8 @@ def run_case(spec):
                 'traceback': traceback.format_exc()[-1500:], 'obs': obs}
     finally:
         os.unlink(path)
+        if pool is not None:
+            pool.pool.terminate()
     nontrivial = (obs['cache_nonempty_at_write'] > 0) if has_cache else bool(mixed)
     res = {'obs': obs, 'nontrivial': bool(nontrivial) and not viols or bool(viols),
            'key': '%s|%s|%s|d%d|%s' % (kind, sorted(spec['opts'].items()), shape, d, history),
